@@ -183,4 +183,44 @@ PROPS = {
         "level_text": "For FileName, RestrictedFileName, Path, FilePath, UserName, GroupName, Base64Url, ServiceName, NodeName: every enumerated byte string is accepted iff an independent predicate written from the documented rules accepts it, accepted values round-trip, every mutating operation on short accepted strings succeeds iff the edited bytes are valid and otherwise leaves the value unchanged, accepted file names cannot leave the root. For every pair of domain configurations (prefixes that are prefixes of one another included) two applications create/list/open/clean nodes and services: each sees exactly its own domain and every file/shm object lies under the acting side's root and prefix.",
         "level_note": "trusted: seqx enumeration, the independent predicate; bounded as stated",
     },
+    "C01": {
+        "level": "exploration",
+        "technique": "bounded-exhaustive enumeration of API call histories (all sequences up to a depth, then breadth-first over distinct reference-model states) over a covering array of QoS configurations against a delivery reference model; plus stateless model checking of a publisher thread against subscriber threads",
+        "legs": [{"ws": "seq", "bin": "h_pubsub", "args": ["--prop", "C01"]}, {"ws": "mc", "bin": "h_pubsub_mt"}],
+        "rule": "see coverage.legs[*].rule",
+        "assumptions": ["configurations are a covering array (every pair of knob values, listed interacting groups in all combinations), not the full cross product", "sequential leg: 1-2 publishers, 1-2 subscribers, tree depth 4-6 quick / 5-8 thorough, frontier to depth 10 / 12; local service quick, ipc added in thorough", "thread leg: 1 publisher thread, 1-2 subscriber threads, local_threadsafe service, preemption bound 1 quick / 2 thorough", "the 'long random histories' clause of the quantifier is sampling and not part of this check"],
+        "design_ref": "DESIGN.md §3.3, §3.1, §4 C01",
+        "level_text": "Every history of create/drop publisher and subscriber, loan, write, send, receive, drop sample, update_connections up to the depth is executed on the real ports for each configuration of the covering array and compared after every call with a reference model of what each (publisher, subscriber) pair is entitled to: per-pair order, at most once, byte-identical payload and header, recipient counts, only the documented losses; frontier mode continues breadth-first from every distinct model state. A thread leg enumerates all schedules (preemption bound) of concurrent send/receive.",
+        "level_note": "trusted: seqx/ixmc engines, the reference model (written from the documentation); bounded as stated",
+    },
+    "C02": {
+        "level": "exploration",
+        "technique": "same bounded-exhaustive history enumeration as C01 with the sample-lifetime oracles: every held sample and loan is re-read after every step, loan addresses are compared with all chunks that still have a holder, self-undoing loan probes count free chunks",
+        "legs": [{"ws": "seq", "bin": "h_pubsub", "args": ["--prop", "C02"]}],
+        "rule": "see coverage.legs[0].rule",
+        "assumptions": ["as C01 (sequential leg)", "request/response payload lifetime is covered by the h_reqres leg when registered"],
+        "design_ref": "DESIGN.md §3.3, §4 C02",
+        "level_text": "Over the same histories and configurations as C01: the bytes seen through every held sample, orphan sample and unsent loan are re-read after EVERY step and must never change; every new loan's chunk must not still have a holder in the model (sample, buffer entry, history slot, loan); after every step a self-undoing probe must obtain exactly max_loaned_samples minus outstanding loans; at the end of every history the publisher must again obtain its full number of loans.",
+        "level_note": "trusted: seqx engine, the holder model; bounded as C01",
+    },
+    "C08": {
+        "level": "exploration",
+        "technique": "same bounded-exhaustive history enumeration with saturation macro-operations and one-too-many probes after every step",
+        "legs": [{"ws": "seq", "bin": "h_pubsub", "args": ["--prop", "C08"]}],
+        "rule": "see coverage.legs[0].rule",
+        "assumptions": ["publish-subscribe limits here; request-response limits in the h_reqres leg, wait-set attachment limit in C20, port/node limits in C17/C06 harnesses when registered", "limit values 1..3 (0 where accepted)"],
+        "design_ref": "DESIGN.md §3.3, §4 C08",
+        "level_text": "Over all histories up to the depth, including macro operations that fill every subscriber buffer, borrow the maximum and take all loans: a loan never fails for lack of memory and a release never for lack of queue space; after every step every limit-exceeding call (one publisher, subscriber, loan, borrow, buffer or history request too many) must fail with its documented error, leave all observables unchanged (control run) and succeed again once capacity is freed.",
+        "level_note": "trusted: seqx engine, the reference model; bounded as C01",
+    },
+    "C06": {
+        "level": "model_checking",
+        "technique": "stateless model checking of concurrent create/open/open_or_create/drop of one service by several nodes (threads) on the real service builder code; bounded-exhaustive single-thread histories and the creator-settings x opener-requirements table (seqx leg, when registered)",
+        "legs": [{"ws": "mc", "bin": "h_service_mt"}],
+        "rule": "one case = (messaging pattern: publish-subscribe | event, per-thread call: create(settings) | open | open_or_create(settings) | create-then-drop | open-then-drop); every schedule within the preemption bound is executed on the real code (local service: process-local storages, their pthread mutex and the clock under scheduler control); outcome = what every call returned",
+        "assumptions": IXMC_ASSUME + ["local::Service (process-local static/dynamic storages) stands for the ipc variant at thread level; the file/shm based creation protocol between processes is exercised only sequentially (seqx leg) and by the crash enumeration of C04", "two-process interleaving search (DESIGN.md §3.2 use 3) was cut", "scheduling points on locations that only one thread touches after the setup phase, or that nobody writes, are elided (learned set, iterated to a fixed point)"],
+        "design_ref": "DESIGN.md §3.1, §4 C06",
+        "level_text": "All schedules (preemption bound) of 2-3 nodes that create, open, open-or-create and drop the same service concurrently are executed on the real builder code: at most one creation succeeds, all live handles report the one configuration some creator asked for, every call returns a service or a documented contention error, the service exists while a handle lives, disappears with the last one and can then be created with other settings.",
+        "level_note": "trusted: ixmc scheduler incl. mutex/clock model and the elision argument (DESIGN.md §3.1); bounded: 2-3 threads, one call each, PB 1 quick / 2 thorough, two patterns",
+    },
 }
